@@ -276,6 +276,43 @@ def meta_rules(repo: Repo, rep, P: str):
         rep.violation(f"{P}.meta.registry", construct, norm(regs[0])[:120], "classes are no longer registered under their mtype", where)
     else:
         rep.violation(f"{P}.meta.registry", construct, "MODULE_CLASSES[…] = cls", "classes are no longer registered under their mtype", where)
+    # --- what the tables are collected from: every name visible on the class (dir(cls) / the whole MRO), so that a class derived from a
+    #     module class inherits its controllers and options; the class's own namespace (class_dict, vars(base) of the direct bases) is not enough
+    for kind in ("Controller", "Option"):
+        tests = [c for c in ast.walk(fn) if isinstance(c, ast.Call) and norm(c.func) == "isinstance" and len(c.args) == 2 and norm(c.args[1]) == kind]
+        if not tests:
+            rep.inconclusive(f"{P}.meta.collect", construct, f"isinstance(…, {kind})", f"selection of {kind} descriptors not found", where)
+            continue
+        for t in tests:
+            holder = None
+            for n in ast.walk(fn):
+                if isinstance(n, (ast.ListComp, ast.DictComp, ast.SetComp, ast.GeneratorExp, ast.For)) and any(x is t for x in ast.walk(n)):
+                    holder = n            # innermost wins (walk is breadth-first: keep the last)
+            iters = []
+            if isinstance(holder, ast.For):
+                iters = [holder.iter]
+            elif holder is not None:
+                iters = [g.iter for g in holder.generators]
+            src = " ".join(norm(resolve_names(i, defs)) for i in iters)
+            # follow locals built before (`declared = {}; for base in …: declared.update(vars(base))`)
+            for nm in {x.id for i in iters for x in ast.walk(i) if isinstance(x, ast.Name)}:
+                for n in ast.walk(fn):
+                    if isinstance(n, ast.Call) and isinstance(n.func, ast.Attribute) and norm(n.func.value) == nm and n.func.attr in ("update", "extend", "append", "add"):
+                        src += " " + norm(n)
+                        for lp in ast.walk(fn):
+                            if isinstance(lp, ast.For) and any(x is n for x in ast.walk(lp)):
+                                src += " for:" + norm(lp.iter)
+            whole = f"dir({cparam})" in src or "__mro__" in src or ".mro()" in src or "getmembers(" in src
+            own = "class_dict" in src or "vars(" in src or "__dict__" in src or (len(fn.args.args) > 3 and fn.args.args[3].arg in src)
+            if whole:
+                rep.ok(f"{P}.meta.collect", construct, f"{kind}: {src[:80]}", "collected over every name visible on the class (inherited descriptors included)")
+            elif own:
+                rep.violation(f"{P}.meta.collect", construct, f"{kind}: {src[:120]}",
+                              f"{kind} descriptors are collected from the class's own namespace / its direct bases only: a class derived from a module "
+                              "class (or from the generated Base class two levels up) gets empty tables and is registered under the type name, so files "
+                              "of that type load with their controller values dropped", where)
+            else:
+                rep.inconclusive(f"{P}.meta.collect", construct, f"{kind}: {src[:120]}", "source of the collected names not recognised", where)
     # --- the per-class tables are built
     for need in ("controllers", "options"):
         if any(isinstance(n, ast.Assign) and any(norm(t) == f"{cparam}.{need}" for t in n.targets) for n in ast.walk(fn)):
